@@ -27,7 +27,10 @@ def squash_choice(expr: Expression, _rules: Mapping[str, Rule]) -> Expression:
         return expr
 
     exprs = expr.expressions
-    return squash(exprs, OptimizedChoice()) or expr
+    squashed = squash(exprs, OptimizedChoice())
+    if squashed and squashed.is_order_preserving():
+        return squashed
+    return expr
 
 
 def squash(
@@ -48,7 +51,8 @@ def squash(
             if not squash(expr.expression.expressions, new_expr):
                 return None
         elif isinstance(expr, Choice):
-            squash(expr.expressions, new_expr)
+            if not squash(expr.expressions, new_expr):
+                return None
         elif isinstance(expr, OptimizedChoice):
             new_expr.update(*expr.choices)  # noqa: SLF001
         else:
